@@ -223,6 +223,44 @@ def check_step(case, ctx):
             ctx.le("step uses the filter's own sampling period when dt is omitted", np.abs(np.asarray(out.value, float) - ref).max(), 1e-12, route=r)
 
 
+def check_step_dt_history(case, ctx):
+    """a step size passed to one call is for that call: a later call on the same instance that leaves dt out steps by the instance's own sampling period"""
+    import ahrs
+    F = ahrs.filters
+    q0, w, dt, m = case.p["q0"], case.p["w"], float(case.p["dt"]), case.p["m"]
+    z = np.zeros(3)
+    first = rq.qnormalize(q0 + 0.5 * dt * rq.qmul(q0, np.r_[0.0, w]))
+    first_aqua = rq.qnormalize(q0 + 0.5 * dt * rq.qmul(np.r_[0.0, -w], q0))
+    other = dt * (3.0 if int(abs(w[0]) * 1e6) % 2 else 0.25)
+
+    def seq(make, step, marg):
+        def run():
+            f = make()
+            if marg:
+                step(f)(q0.copy(), w.copy(), z.copy(), m.copy(), dt=other)
+                return step(f)(q0.copy(), w.copy(), z.copy(), m.copy())
+            step(f)(q0.copy(), w.copy(), z.copy(), dt=other)
+            return step(f)(q0.copy(), w.copy(), z.copy())
+        return run
+    for r, run, ref in (("first-order/Madgwick.updateIMU", seq(lambda: F.Madgwick(Dt=dt), lambda f: f.updateIMU, False), first),
+                        ("first-order/Madgwick.updateMARG", seq(lambda: F.Madgwick(Dt=dt), lambda f: f.updateMARG, True), first),
+                        ("first-order/Mahony.updateIMU", seq(lambda: F.Mahony(Dt=dt), lambda f: f.updateIMU, False), first),
+                        ("first-order/Mahony.updateMARG", seq(lambda: F.Mahony(Dt=dt), lambda f: f.updateMARG, True), first),
+                        ("first-order/AQUA.updateIMU", seq(lambda: F.AQUA(Dt=dt), lambda f: f.updateIMU, False), first_aqua),
+                        ("first-order/AQUA.updateMARG", seq(lambda: F.AQUA(Dt=dt), lambda f: f.updateMARG, True), first_aqua)):
+        out = call(run)
+        if ctx.returned(out, clause="no-exception[dt given on an earlier call only]", route=r):
+            q = np.asarray(out.value, float)
+            ctx.le("a call without dt steps by the instance's sampling period, whatever dt an earlier call on the instance was given",
+                   np.abs(q / np.linalg.norm(q) - ref).max(), 1e-12, {"got": q, "expected": ref, "Dt": dt, "dt_of_earlier_call": other}, route=r)
+    # mixed entry points: updateIMU with dt, then updateMARG without
+    out = call(lambda: (lambda f: (f.updateIMU(q0.copy(), w.copy(), z.copy(), dt=other), f.updateMARG(q0.copy(), w.copy(), z.copy(), m.copy()))[1])(F.Madgwick(Dt=dt)))
+    if ctx.returned(out, clause="no-exception[dt given on an earlier call only]", route="first-order/Madgwick.updateMARG"):
+        q = np.asarray(out.value, float)
+        ctx.le("a call without dt steps by the instance's sampling period, whatever dt an earlier call on the instance was given",
+               np.abs(q / np.linalg.norm(q) - first).max(), 1e-12, {"got": q, "expected": first, "earlier_call": "updateIMU(dt=)"}, route="first-order/Madgwick.updateMARG")
+
+
 def check_sequence(case, ctx):
     import ahrs
     q0, W, dt = case.p["q0"], case.p["W"], float(case.p["dt"])
@@ -265,3 +303,5 @@ def check_sequence(case, ctx):
 
 def check(case, ctx):
     {"const": check_const, "series": check_series, "step": check_step, "sequence": check_sequence}[case.route](case, ctx)
+    if case.route == "step":
+        check_step_dt_history(case, ctx)
